@@ -108,6 +108,48 @@ fn cases_for(model: &Model, rule: &str, cfg: &PropCfg, rng: &mut Rng) -> Vec<Cas
             }
         }
     }
+    if model.uses_stack.get(rule).copied().unwrap_or(false) {
+        // stack-aware repair: wherever the reference interpreter tried to match stack contents, build the
+        // input that has exactly that text there (a correct implementation gets past the point; a wrong
+        // restore shows up as a different verdict instead of two coinciding rejections)
+        // every single-character deletion / replacement of a few short sentences: the attempt that
+        // pushed or popped something fails at each possible point
+        let shorts: Vec<String> = inputs.iter().take(cfg.sentences).filter(|s| s.len() <= 40 && !s.is_empty()).take(10).cloned().collect();
+        for u in shorts {
+            let idx: Vec<usize> = u.char_indices().map(|(i, _)| i).collect();
+            for (k, i) in idx.iter().enumerate() {
+                let j = idx.get(k + 1).copied().unwrap_or(u.len());
+                for cand in [format!("{}{}", &u[..*i], &u[j..]), format!("{}\u{1}{}", &u[..*i], &u[j..])] {
+                    if seen.insert(cand.clone()) {
+                        inputs.push(cand);
+                    }
+                }
+            }
+        }
+        let mut base: Vec<String> = inputs.iter().rev().take(400).cloned().collect();
+        base.extend(inputs.iter().take(120).cloned());
+        for pass in 0..2 {
+            let first_new = inputs.len();
+            for u in base.iter() {
+            let o = refpeg::run(&model.opt, rule, u, 0, u.len(), &refpeg::Opts::default());
+            let mut done = 0;
+            for (p, text) in o.stack_probes.iter().rev() {
+                if *p > u.len() || !u.is_char_boundary(*p) || done >= 3 {
+                    continue;
+                }
+                done += 1;
+                for cand in [format!("{}{}", &u[..*p], text), format!("{}{}{}", &u[..*p], text, &u[*p..])] {
+                    if cand.len() <= 4096 && seen.insert(cand.clone()) {
+                        inputs.push(cand);
+                    }
+                }
+            }
+            }
+            // second pass: repair the repaired inputs once more (two stack matches in a row)
+            base = inputs[first_new..].iter().take(120).cloned().collect();
+            let _ = pass;
+        }
+    }
     for s in model.small_scope.iter().take(cfg.small_cap).chain(model.hostile.iter()) {
         if seen.insert(s.clone()) {
             inputs.push(s.clone());
